@@ -4,6 +4,8 @@
    FULL STATEMENT: when all messages are delivered and timers fire as configured, a cluster (any size, any
    fault-free interleaving, any number of appended entries) elects exactly one leader, and every entry appended
    at the leader is eventually present and committed on every node.
+   `rv : raftrev` is the revision of the election code (Raft.v: before / after each of the two election repairs of
+   C27); every statement below holds for every revision, so in particular for the one the source tree has.
    PROVED (partial — the cluster size, the schedule and the number of appended entries are bounded as written
    in each statement; nothing is claimed for other sizes or for arbitrarily many appends):
    * 3 nodes, EVERY fault-free interleaving of the schedule `script3`;
@@ -19,29 +21,29 @@ Open Scope N_scope.
    Every such run of a 3-node cluster ends with exactly one leader, the other nodes its followers, every log
    equal to the appended entries [101; 102] and committed on every node.
    (Reflective exhaustive exploration with a proved soundness lemma; 37800 interleavings for the election alone.) *)
-Theorem C30_all_interleavings_3_partial : forall c',
-  ff_run [Tick 0 0 []; ClientAppend 0 101; ClientAppend 0 102; Tick 0 1001 [1; 2]] (init_default 3) c' ->
+Theorem C30_all_interleavings_3_partial : forall rv c',
+  ff_run rv [Tick 0 0 []; ClientAppend 0 101; ClientAppend 0 102; Tick 0 1001 [1; 2]] (init_default 3) c' ->
   all_synced_b c' [101; 102] = true.
 Proof. exact C30_all_interleavings_3. Qed.
 Print Assumptions C30_all_interleavings_3_partial.
 
 (* the relation is inhabited (the oldest-first run is one of its runs) *)
-Example C30_nonvacuous : exists c',
-  ff_run [Tick 0 0 []; ClientAppend 0 101; ClientAppend 0 102; Tick 0 1001 [1; 2]] (init_default 3) c' /\
+Example C30_nonvacuous : forall rv, exists c',
+  ff_run rv [Tick 0 0 []; ClientAppend 0 101; ClientAppend 0 102; Tick 0 1001 [1; 2]] (init_default 3) c' /\
   all_synced_b c' [101; 102] = true.
 Proof. exact C30_nonvacuous. Qed.
 Print Assumptions C30_nonvacuous.
 
 (* configured timers, oldest-first delivery, two appended entries: the cluster of 3 (resp. 5) nodes becomes
    quiescent with exactly one leader, all logs equal and committed everywhere; one leader per term throughout *)
-Theorem C30_fifo_3_partial :
-  let c := healthy 3 [101; 102] in
+Theorem C30_fifo_3_partial : forall rv,
+  let c := healthy rv 3 [101; 102] in
   c_net c = [] /\ all_synced_b c [101; 102] = true /\ election_safety_b (c_hist c) = true.
 Proof. exact C30_fifo_3. Qed.
 Print Assumptions C30_fifo_3_partial.
 
-Theorem C30_fifo_5_partial :
-  let c := healthy 5 [101; 102] in
+Theorem C30_fifo_5_partial : forall rv,
+  let c := healthy rv 5 [101; 102] in
   c_net c = [] /\ all_synced_b c [101; 102] = true /\ election_safety_b (c_hist c) = true.
 Proof. exact C30_fifo_5. Qed.
 Print Assumptions C30_fifo_5_partial.
